@@ -892,7 +892,7 @@ CHECKS = {
                           'FastPasta.C01.conforming_stave_stream_accepted', 'FastPasta.C01.conforming_input_clean_stave', 'FastPasta.C01.run_clean_of_quiet_validators', 'FastPasta.C01.conforming_input_clean_plain',
                           'FastPasta.Proto.spayload_sim', 'FastPasta.Proto.ssegs_sim', 'FastPasta.Proto.frameOk_checks', 'FastPasta.Proto.laneOk_verdict']),
     'C02': dict(modules=['FastPasta.Props.C02', 'FastPasta.Props.C02Run'], run=run_c02, needs_harness=False, corr='run_faulted',
-                theorems=['FastPasta.C02.rdh_sanity_fault_detected', 'FastPasta.C02.rdh_running_fault_detected', 'FastPasta.C02.sanity_mode_no_e11',
+                theorems=['FastPasta.C02.stateful_checks_src', 'FastPasta.C02.bc_order_src', 'FastPasta.C02.rdh_sanity_fault_detected', 'FastPasta.C02.rdh_running_fault_detected', 'FastPasta.C02.sanity_mode_no_e11',
                           'FastPasta.C02.ihw_fault_detected', 'FastPasta.C02.tdh_fault_detected', 'FastPasta.C02.tdt_fault_detected',
                           'FastPasta.C02.ddw0_fault_detected', 'FastPasta.C02.ddw0_needs_stop_bit', 'FastPasta.C02.ddw0_needs_page_gt_0',
                           'FastPasta.C02.ihw_needs_stop_0', 'FastPasta.C02.tdh_after_ihw_rules', 'FastPasta.C02.tdh_continuation_rule',
@@ -914,7 +914,9 @@ CHECKS = {
                           'FastPasta.C06.step_inv', 'FastPasta.C06.run_inv', 'FastPasta.C06.upd_other', 'FastPasta.C06.upd_own']),
     'C07': dict(modules=['FastPasta.Props.C07'], run=run_c07, needs_harness=False, corr='run_corrupted',
                 theorems=['FastPasta.C07.finding_truthful_init', 'FastPasta.C07.finding_truthful', 'FastPasta.C07.linkStep_ok', 'FastPasta.C07.payloadChecks_ok',
-                          'FastPasta.C07.checkWords_ok', 'FastPasta.C07.checkWord_ok', 'FastPasta.C07.processFrame_ok', 'FastPasta.C07.preData_ok']),
+                          'FastPasta.C07.checkWords_ok', 'FastPasta.C07.checkWord_ok', 'FastPasta.C07.processFrame_ok', 'FastPasta.C07.preData_ok',
+                          # tie by translation (Spec/StateSrcGen.lean): the word offset is the source's CdpTracker
+                          'FastPasta.C07.tracker_new_src', 'FastPasta.C07.word_pos_src', 'FastPasta.C07.tracker_step_src']),
     'C13': dict(modules=['FastPasta.Props.C13'], run=run_c13, needs_harness=False, corr='run_frames',
                 theorems=['FastPasta.C13.decode_encode', 'FastPasta.C13.hits_irrelevant', 'FastPasta.C13.event_decoded', 'FastPasta.C13.apply_skeleton',
                           'FastPasta.C13.lane_count_iff_ib', 'FastPasta.C13.lane_count_iff_ml', 'FastPasta.C13.lane_count_iff_ol', 'FastPasta.C13.frame_verdict_exact', 'FastPasta.C13.go_spec',
@@ -925,5 +927,6 @@ CHECKS = {
                 theorems=['FastPasta.C20.cdps_iff', 'FastPasta.C20.pht_iff', 'FastPasta.C20.absent_is_silent', 'FastPasta.C20.finalize_default',
                           'FastPasta.C20.rdh_version_iff', 'FastPasta.C20.period_eq', 'FastPasta.C20.period_iff', 'FastPasta.C20.no_period_silent',
                           'FastPasta.C20.pairing', 'FastPasta.C20.chip_count_iff', 'FastPasta.C20.chip_order_iff', 'FastPasta.C20.inner_builtin',
-                          'FastPasta.C20.ob_unconfigured_silent']),
+                          'FastPasta.C20.ob_unconfigured_silent',
+                          'FastPasta.C20.period_src_iff', 'FastPasta.C20.tdh_buffer_src']),
 }
